@@ -3,6 +3,7 @@ package main
 // Reporting: evidence files, known findings, violation lines.
 
 import (
+	"sync"
 	"encoding/json"
 	"fmt"
 	"os"
@@ -24,6 +25,8 @@ type Report struct {
 	prelude string
 	tmp     string
 	vacuity map[string]any
+	witMu    sync.Mutex
+	witCache map[string]witnessRes
 }
 
 type KnownFinding struct {
